@@ -28,6 +28,7 @@ RULE = (
     "in five sends an earlier complete run through the same dispatcher object first. "
     "Non-trivial: >= 2 events re-emitted and (>= 2 re-emitted streams or a stream with more events than descriptors). "
     "Distinct = distinct canonical JSON of the case."
+    ' num_events must not report a count for a stream in which the run emitted no event.'
 )
 ASSUMPTIONS = [
     "the dispatcher receives individual event documents with 'filled' (what the RunEngine publishes), never pages",
